@@ -52,6 +52,8 @@ pub enum Dest {
     TrustedOtherCase,
     /// a trusted name with a trailing space
     TrustedTrailingSpace,
+    /// a trusted name that contains upper-case letters: it must be announced exactly as it was trusted and requested
+    TrustedMixedCase,
 }
 
 #[derive(Clone, Copy, Debug, Serialize, Deserialize, PartialEq, Eq)]
@@ -133,7 +135,7 @@ impl Property for C18 {
         (
             tok(),
             prop_oneof![3 => Just(Who::OriginalDeployer), 1 => Just(Who::OtherReusingSalt)],
-            prop_oneof![6 => Just(Dest::Trusted), 1 => Just(Dest::NeverTrusted), 1 => Just(Dest::Removed), 1 => Just(Dest::HubItself), 1 => Just(Dest::Empty), 1 => Just(Dest::TrustedOtherCase), 1 => Just(Dest::TrustedTrailingSpace)],
+            prop_oneof![6 => Just(Dest::Trusted), 1 => Just(Dest::NeverTrusted), 1 => Just(Dest::Removed), 1 => Just(Dest::HubItself), 1 => Just(Dest::Empty), 1 => Just(Dest::TrustedOtherCase), 1 => Just(Dest::TrustedTrailingSpace), 2 => Just(Dest::TrustedMixedCase)],
             prop_oneof![1 => Just(GasC::Zero), 1 => Just(GasC::Negative), 5 => (1u16..500).prop_map(GasC::Affordable), 1 => Just(GasC::ExactBalance), 1 => Just(GasC::BalancePlusOne)],
             prop_oneof![6 => Just(true), 1 => Just(false)],
             prop_oneof![2 => Just(false), 1 => Just(true)],
@@ -164,6 +166,7 @@ impl Property for C18 {
         w.fund_gas(&deployer, BAL);
         w.fund_gas(&other, BAL);
         w.trust("ethereum");
+        w.trust("Polygon-zkEVM");
         w.trust("to-be-removed");
         w.untrust("to-be-removed");
 
@@ -258,9 +261,10 @@ impl Property for C18 {
             Dest::HubItself => HUB_CHAIN,
             Dest::Empty => "",
             Dest::TrustedOtherCase => "Ethereum",
+            Dest::TrustedMixedCase => "Polygon-zkEVM",
             Dest::TrustedTrailingSpace => "ethereum ",
         };
-        let dest_trusted = case.dest == Dest::Trusted;
+        let dest_trusted = matches!(case.dest, Dest::Trusted | Dest::TrustedMixedCase);
         let gas_amount: i128 = match case.gas {
             GasC::Zero => 0,
             GasC::Negative => -1,
